@@ -194,6 +194,7 @@ fn specials() -> Vec<Special> {
         Special { what: "a symlink loop in the importer's directory is an unreadable file, not a miss", files: vec![("J1/x.libsonnet", b"\"from-J1\"".to_vec())], symlinks: vec![("D0/x.libsonnet", "x.libsonnet")], dirs: vec![], main: "import \"x.libsonnet\"", jpaths: vec!["J1"], want: None, traces: None, stderr_has: Some("main.jsonnet:1:") },
         Special { what: "a symlink loop in a higher-priority -J location is an unreadable file, not a miss", files: vec![("J1/x.libsonnet", b"\"from-J1\"".to_vec())], symlinks: vec![("J2/x.libsonnet", "x.libsonnet")], dirs: vec!["J2"], main: "importstr \"x.libsonnet\"", jpaths: vec!["J1", "J2"], want: None, traces: None, stderr_has: Some("main.jsonnet:1:") },
         Special { what: "a symlink loop in a lower-priority location does not matter", files: vec![("J2/x.libsonnet", b"\"from-J2\"".to_vec())], symlinks: vec![("J1/x.libsonnet", "x.libsonnet")], dirs: vec!["J1"], main: "import \"x.libsonnet\"", jpaths: vec!["J1", "J2"], want: Some("\"from-J2\""), traces: None, stderr_has: None },
+        Special { what: "a candidate path that runs through a regular file is a miss there", files: vec![("D0/a.txt", b"x".to_vec()), ("J1/a.txt/b", b"\"from-J1\"".to_vec())], symlinks: vec![], dirs: vec![], main: "import \"a.txt/b\"", jpaths: vec!["J1"], want: Some("\"from-J1\""), traces: None, stderr_has: None },
         Special { what: "a dangling symlink in a higher-priority location is a miss there", files: vec![("J1/x.libsonnet", b"\"from-J1\"".to_vec())], symlinks: vec![("D0/x.libsonnet", "nowhere")], dirs: vec![], main: "import \"x.libsonnet\"", jpaths: vec!["J1"], want: Some("\"from-J1\""), traces: None, stderr_has: None },
         Special { what: "dangling symlink is a missing file", files: vec![], symlinks: vec![("D0/x.libsonnet", "nowhere")], dirs: vec![], main: "import \"x.libsonnet\"", jpaths: vec![], want: None, traces: None, stderr_has: Some("main.jsonnet:1:") },
         Special { what: "import of a directory is an error at the import site", files: vec![], symlinks: vec![], dirs: vec!["D0/x.libsonnet"], main: "local a = 1;\n  importstr \"x.libsonnet\"", jpaths: vec![], want: None, traces: None, stderr_has: Some("main.jsonnet:2:3") },
